@@ -23,6 +23,7 @@ pub fn dispatch(op: &str, req: &Value) -> Value {
         "custom_value" => custom_value(req),
         "flow" => flow(req),
         "context" => context(req),
+        "ron_roundtrip" => ron_roundtrip(req),
         _ => json!({"error": format!("unknown op {op}")}),
     }
 }
@@ -402,4 +403,18 @@ fn flow(req: &Value) -> Value {
         Ok(out) => json!({"ok": true, "out": string_to_cps(&out)}),
         Err(e) => json!({"ok": false, "err": e.to_string()}),
     }
+}
+
+
+/// parse a Zerv RON document with zerv's own FromStr, emit it with its Display (ron), parse and emit again
+fn ron_roundtrip(req: &Value) -> Value {
+    use std::str::FromStr;
+    let text = cps_to_string(&req["text"]);
+    let z = match Zerv::from_str(&text) { Ok(z) => z, Err(e) => return json!({"ok": false, "err": e.to_string()}) };
+    let emitted = z.to_string();
+    let z2 = match Zerv::from_str(&emitted) { Ok(z) => z, Err(e) => return json!({"ok": true, "emitted": emitted, "reparse_err": e.to_string()}) };
+    let emitted2 = z2.to_string();
+    json!({"ok": true, "emitted": emitted, "emitted2": emitted2,
+           "object": format!("{:?}|{:?}", z, z.schema.precedence_order().to_vec()),
+           "object2": format!("{:?}|{:?}", z2, z2.schema.precedence_order().to_vec())})
 }
